@@ -6,33 +6,53 @@
 (* feasible input sets, "X" makes the net infeasible (no supply).           *)
 (* With continue_on_divergence a diverged step is logged as such and the    *)
 (* loop goes on; without it the loop stops by raising.                      *)
+(*                                                                          *)
+(* transient = TRUE models run_timeseries(.., transient=True, dt): the      *)
+(* hydraulic part of a step is still a function of that step's inputs only  *)
+(* (quasi-stationary hydraulics), the thermal part is a function of the     *)
+(* inputs of all steps up to and including this one (thermal inertia), and  *)
+(* of nothing else: the run over a prefix of the profile reproduces the     *)
+(* first steps of the run over the whole profile (InvPrefix).               *)
 (***************************************************************************)
 EXTENDS Integers, Sequences, FiniteSets, TLC, Json
 
 CONSTANTS MaxLen, Inputs, EmitOn
-VARIABLES profile, cod, t, log, aborted, started
-vars == <<profile, cod, t, log, aborted, started>>
+VARIABLES profile, cod, transient, t, log, aborted, started
+vars == <<profile, cod, transient, t, log, aborted, started>>
 
 Profiles == UNION {[1..n -> Inputs] : n \in 1..MaxLen}
-Solve(x) == IF x = "X" THEN <<"diverged", "">> ELSE <<"result", x>>       \* depends on the step's inputs only
+Hyd(x) == <<"hyd", x>>                                   \* uninterpreted: depends on the step's inputs only
+Th(tr, past) == <<"th", IF tr THEN past ELSE <<past[Len(past)]>>>>   \* thermal state: the whole past when transient, else this step only
+Solve(tr, past) == LET x == past[Len(past)] IN
+    IF x = "X" THEN <<"diverged", <<>>, <<>>>> ELSE <<"result", Hyd(x), Th(tr, past)>>
 
-Init == /\ profile \in Profiles /\ cod \in BOOLEAN
+Init == /\ profile \in Profiles /\ cod \in BOOLEAN /\ transient \in BOOLEAN
         /\ t = 0 /\ log = <<>> /\ aborted = FALSE /\ started = FALSE
 Step == /\ ~aborted /\ t < Len(profile)
-        /\ LET r == Solve(profile[t + 1]) IN
+        /\ LET r == Solve(transient, SubSeq(profile, 1, t + 1)) IN
            IF r[1] = "diverged" /\ ~cod THEN aborted' = TRUE /\ log' = log /\ t' = t
            ELSE aborted' = FALSE /\ log' = Append(log, r) /\ t' = t + 1
-        /\ started' = TRUE /\ UNCHANGED <<profile, cod>>
+        /\ started' = TRUE /\ UNCHANGED <<profile, cod, transient>>
 Finish == /\ EmitOn /\ (aborted \/ t = Len(profile)) /\ started
-          /\ PrintT(ToJson([vp |-> "TS", profile |-> profile, cod |-> cod]))
+          /\ PrintT(ToJson([vp |-> "TS", profile |-> profile, cod |-> cod, transient |-> transient]))
           /\ UNCHANGED vars
 Next == Step \/ Finish
 Spec == Init /\ [][Next]_vars
 
-(* every logged step equals the stand-alone solution of that step's inputs *)
-InvStandalone == \A i \in DOMAIN log : log[i] = Solve(profile[i])
+(* every logged step equals the stand-alone solution of that step's inputs: entirely when stationary, in its hydraulic part when transient *)
+InvStandalone == \A i \in DOMAIN log :
+    /\ log[i][1] = (IF profile[i] = "X" THEN "diverged" ELSE "result")
+    /\ profile[i] # "X" => log[i][2] = Hyd(profile[i])
+    /\ (profile[i] # "X" /\ ~transient) => log[i] = Solve(FALSE, <<profile[i]>>)
 (* the loop aborts exactly at the first infeasible step when divergence is not tolerated *)
 InvAbort == aborted => (~cod /\ profile[t + 1] = "X" /\ \A i \in 1..t : profile[i] # "X")
 InvComplete == (t = Len(profile)) => Len(log) = Len(profile)
-Emit == (EmitOn /\ t = 0) => PrintT(ToJson([vp |-> "TS", profile |-> profile, cod |-> cod]))
+(* independent characterisation of the log: what the loop over a profile p logs (all of it, if it does not abort) *)
+RECURSIVE LogOf(_, _, _)
+LogOf(p, tr, n) == IF n = 0 THEN <<>> ELSE Append(LogOf(p, tr, n - 1), Solve(tr, SubSeq(p, 1, n)))
+(* a step depends on the past only: the log is the log of the run over the prefix consumed so far *)
+InvPrefix == log = LogOf(profile, transient, t)
+(* two steps with equal inputs have equal hydraulic results, whatever lies between them *)
+InvHydRepeat == \A i, k \in DOMAIN log : (profile[i] = profile[k] /\ profile[i] # "X") => log[i][2] = log[k][2]
+Emit == (EmitOn /\ t = 0) => PrintT(ToJson([vp |-> "TS", profile |-> profile, cod |-> cod, transient |-> transient]))
 =============================================================================
